@@ -47,7 +47,8 @@ def _effects(outcome):
                     pass
             out.append(('call', head, t))
         elif t.startswith('store '):
-            out.append(('store', t[6:].split(' = ')[0], t))
+            # the object a store goes into is the same object before and after earlier steps: old<t>(config.cache)[k] is config.cache[k]
+            out.append(('store', _re.sub(r'\bold\d+\(([^()]*)\)', r'\1', t[6:].split(' = ')[0]), t))
         elif t.startswith('new '):
             out.append(('new', t[4:].split(' = ')[0], t))
         elif t.startswith('loop ') or t.startswith('LOOP'):
@@ -348,6 +349,11 @@ def _judge(want, have, closure=(), depth=0, conds=None, wconds=None):
         if missing + extra and all(k == 'exit' for k, _ in missing + extra) and {h for _, h in missing + extra} <= {'next', 'break', 'ret'} \
                 and [x for x in wsk if x[0] != 'exit'] == [x for x in hsk if x[0] != 'exit'] and ('ret None' in want + have or 'break' in want + have):
             return 'undecided', 'same calls and stores, the loop is continued / left / the function returns None in another way: loop exits may have been restructured'
+        if (missing or extra) and all(k == 'call' for k, _ in missing + extra) and all((h + '(') in have for _, h in missing) and all((h + '(') in want for _, h in extra):
+            return 'undecided', 'a call that is a recorded step on one side is an effect-free expression on the other (%s): its callee changed with it' % (missing or extra)
+        if missing and extra and len(missing) == len(extra) and all(_re.search(r'\bobj\d+\b', h) for _, h in missing + extra) \
+                and sorted((k, h.rsplit('.', 1)[-1] if '.' in h else '') for k, h in missing) == sorted((k, h.rsplit('.', 1)[-1] if '.' in h else '') for k, h in extra):
+            return 'undecided', 'the same kind of step is addressed through different local objects (%s instead of %s)' % (extra, missing)
         if any(k in ('store', 'call') for k, _ in missing + extra) or (missing + extra and all(k == 'exit' for k, _ in missing + extra)):
             return 'bad', 'the externally visible steps differ (not in the reviewed behaviour: %s; missing: %s)' % (extra or '-', missing or '-')
         return 'undecided', 'different steps on local objects'
@@ -400,6 +406,8 @@ def _judge(want, have, closure=(), depth=0, conds=None, wconds=None):
             return 'undecided', 'a local accumulator is represented differently (steps on a local object on one side, a carried value on the other)'
         if _re.search(r'obj\d+', ''.join(wt + ht)):
             return 'undecided', 'loop-carried locals differ in a value built from local objects'
+        if bool(_re.search(r'\b(max|min)\(', ''.join(wt))) != bool(_re.search(r'\b(max|min)\(', ''.join(ht))):
+            return 'undecided', 'a conditional update of a loop-carried local is spelled with max() / min() on one side (one row there, two rows here)'
         return 'bad', 'the values carried to the next iteration / after the loop differ: `%s` instead of `%s`' % (ht[0][:160], wt[0][:160])
     return 'undecided', 'outcomes differ only in steps on local objects'
 
@@ -509,6 +517,13 @@ def check_table(p, res, rname, fq, message, detectors=()):
                 kind, why = _judge(wo, ho, closure, 0, hc, wc)
                 if kind == 'bad' and coupled and ('_fin_' in wo + ho or '_acc_' in wo + ho or any('_fin_' in k or '_acc_' in k for k in list(wc) + list(hc))):
                     kind, why = 'undecided', 'another segment of the loop can no longer be compared, and this case depends on the loop-carried values'
+                if kind == 'bad':
+                    # the two rows split the values of a loop-carried local at different points (`== -1` / `> -1`): the region where they
+                    # overlap may be excluded by a loop invariant (the running maximum never drops below its start value)
+                    lk_w = {k for k in wc if '_fin_' in k or '_acc_' in k}
+                    lk_h = {k for k in hc if '_fin_' in k or '_acc_' in k}
+                    if lk_w != lk_h and (lk_w or lk_h) and all(k.lstrip('+-').lstrip('0123456789').strip().startswith(('+', '-', '*')) or ' > 0' in k or ' == 0' in k for k in lk_w ^ lk_h):
+                        kind, why = 'undecided', 'the cases split the values of a loop-carried local at different points (%s / %s): which of them it can take is a loop invariant' % (sorted(lk_h - lk_w), sorted(lk_w - lk_h))
                 judged.append((label, wc, wo, hc, ho, kind, why))
     # a loop-carried local that is defined differently *and* used differently where it is read (another segment, or another
     # row of the loop) is another representation of the accumulator (largest index vs number of indices used): the two
